@@ -2,9 +2,12 @@ package main
 
 import (
 	"bytes"
+	"crypto/sha1"
 	"encoding/json"
+	"fmt"
 	"os"
 	"path/filepath"
+	"sort"
 	"strings"
 
 	"github.com/Syuparn/pangaea/object"
@@ -22,12 +25,63 @@ type freshReq struct {
 	History []string `json:"history"`
 	Prog    string   `json:"prog"`
 	Coq     bool     `json:"coq"`
+	// Fingerprint: also report a fingerprint of everything a later program can reach from the
+	// global scope (every global name; for objects their own property names, values and prototype)
+	Fingerprint bool `json:"fingerprint"`
 }
 
 type freshReply struct {
 	evalResult
 	Coq     string `json:"coq,omitempty"`
 	NewProc bool   `json:"newenv"`
+	World   map[string]string `json:"world,omitempty"`
+}
+
+// worldFingerprint: global name -> digest of what it denotes (objects: proto + own pairs, one level deep)
+func worldFingerprint(global *object.Env) map[string]string {
+	fp := map[string]string{}
+	for h, v := range global.Store {
+		s, ok := object.SymHash2Str(h)
+		if !ok {
+			continue
+		}
+		name := s.(*object.PanStr).Value
+		fp[name] = describeDeep(v)
+	}
+	return fp
+}
+
+func describeDeep(v object.PanObject) string {
+	o, ok := v.(*object.PanObj)
+	if !ok {
+		if v == nil {
+			return "<go nil>"
+		}
+		if e, isErr := v.(*object.PanErr); isErr {
+			return "err:" + e.Inspect() + "|trace:" + e.StackTrace
+		}
+		return string(v.Type()) + ":" + v.Inspect()
+	}
+	keys := []string{}
+	for _, p := range *o.Pairs {
+		k := p.Key.Inspect()
+		val := "?"
+		if p.Value != nil {
+			if e, isErr := p.Value.(*object.PanErr); isErr {
+				val = "err:" + e.Inspect() + "|trace:" + e.StackTrace
+			} else {
+				val = string(p.Value.Type()) + ":" + p.Value.Inspect()
+			}
+		}
+		keys = append(keys, k+"="+val)
+	}
+	sort.Strings(keys)
+	proto := "<none>"
+	if o.Proto() != nil {
+		proto = fmt.Sprintf("%p", o.Proto())
+	}
+	sum := sha1.Sum([]byte(strings.Join(keys, "\x00")))
+	return fmt.Sprintf("obj proto=%s n=%d sha=%x", proto, len(keys), sum[:8])
 }
 
 func init() {
@@ -54,6 +108,9 @@ func cmdFresh() {
 		in.r = strings.NewReader("")
 		r := evalIn(q.Prog, object.NewEnclosedEnv(global), &out)
 		rep := freshReply{evalResult: r}
+		if q.Fingerprint {
+			rep.World = worldFingerprint(global)
+		}
 		if q.Coq && r.Kind != "syntax" {
 			if node, err := parseString(q.Prog); err == nil {
 				rep.Coq = coqProgram(node)
